@@ -348,4 +348,20 @@ theorem sc_readers_eq_decode (c : CodecImpl) (conv : List Int → List Int) (ts 
     exact decode_index_irrelevant_aligned c conv _ x.rows x.cols x.spp bytes index h8
   · exact decode_index_irrelevant c conv _ x.rows x.cols x.spp bytes index 0 hcase
 
+/-- **An encapsulated map through the readers of the image classes**: the readers hand `decode_frame` the data set's attributes
+and the frame's own index (T13g); for encapsulated pixel data the index has no effect, so what they return for item `f` is
+`readStoredFrameEncapsulated` -- whatever index is passed. -/
+theorem pm_encapsulated_readers_eq (c : CodecImpl) (conv : List Int → List Int) (ts : String) (e : PMEncapsulated) (f : Nat)
+    (b : List Nat) (hb : e.items[f]? = some b) (henc : isEncapsulated ts = true) (index : Int) :
+    readFrame c conv (e.obj.module ts) b index = readStoredFrameEncapsulated c conv ts e f := by
+  unfold readStoredFrameEncapsulated
+  rw [hb]
+  unfold readFrame PMObject.module PixelModule.params PixelModule.storedOrAllocated
+  simp only []
+  have hp : (⟨ts, e.obj.bitsAllocated, e.obj.bitsStored, "MONOCHROME2", e.obj.pixelRepresentation, none⟩ : Params) = pmParams ts e.obj := rfl
+  rw [hp]
+  exact decode_index_irrelevant c conv (pmParams ts e.obj) e.obj.rows e.obj.cols 1 b index 0
+    (fun h => by have : isEncapsulated (pmParams ts e.obj).ts = true := henc
+                 rw [this] at h; exact absurd h.2 (by decide))
+
 end HdVerif.PMap
